@@ -507,6 +507,63 @@ def _run_notify(case):
 
 # ---------------------------------------------------------------------------
 
+def _run_plug_timeout(case):
+  """a prompt nobody answers runs into its timeout (PromptUnansweredError) while a watcher holds the (state, event)
+  pair that shows it: whatever the plug then does with the prompt, a state that differs from the watcher's snapshot
+  comes with a set event"""
+  import openhtf as htf
+  from harness import sched_exec
+  from openhtf.plugs import user_input
+  sched_exec.install(False)
+  sched._patch(user_input, 'threading', sched.shim_threading())
+  facts = []
+  box = {}
+  vt = sched.VTime()
+
+  @htf.plug(ui=user_input.UserInput)
+  def asker(test, ui):
+    box['plug'] = ui
+    for k in range(case['prompts']):
+      try:
+        ui.prompt('question %d' % k, text_input=True, timeout_s=0.05)
+        facts.append('X:prompt-returned-without-an-answer')
+      except user_input.PromptUnansweredError:
+        pass
+      except user_input.MultiplePromptsError:
+        box['multiple'] = True     # prompting again while the unanswered prompt is still up: refused, by design
+      # things are quiet now: give the watcher time, then compare
+      vt.sleep(0.2)
+      snap, ev = box.get('pair', (None, None))
+      if ev is not None and not ev.is_set() and snap != ui._asdict():
+        facts.append('X:plug-state-changed-without-waking-the-watcher')
+  test = htf.Test(asker)
+  test.configure(name='verif_plug_timeout')
+
+  def watcher():
+    s = sched.SCHED
+    s.block(lambda: box.get('plug') is not None or box.get('over'), None, 'wait-for-plug')
+    plug = box.get('plug')
+    while plug is not None and not box.get('over'):
+      state, ev = plug.asdict_with_event()
+      box['pair'] = (state, ev)
+      ev.wait(0.5)
+
+  def body(s):
+    w = threading.Thread(target=watcher)
+    w._cosched_name = 'watcher'
+    w.start()
+    try:
+      test.execute()
+    finally:
+      box['over'] = True
+    w.join()
+    return True
+  rbox, s = sched.run(sched.chooser_for(case, 'c18pt'), body, max_steps=100000)
+  if s.deadlock or 'sched_error' in rbox:
+    facts.append('X:deadlock-or-stuck')
+  return {'toks': [], 'n': 0, 'per': {}, 'final': None, 'extras': sorted(set(facts)), 'steps': s.step, 'live': True}
+
+
 def _run_live(case):
   """a snapshot-then-wait watcher on a RUNNING phase: after the phase's last assignment (and its notification) the
   watcher is given the time to wake up and take its snapshot; that snapshot must show the values the measurements now
@@ -587,6 +644,8 @@ def run_real(case):
   k = case['kind']
   if k == 'live':
     return _run_live(case)
+  if k == 'plugto':
+    return _run_plug_timeout(case)
   if k == 'bare':
     return _run_bare(case)
   if k == 'test':
@@ -618,7 +677,7 @@ def classify(case, o):
 def nontrivial_key(case, o):
   if case['kind'] == 'notify':
     return None if not o['obs'] else json.dumps(case, sort_keys=True)
-  if case['kind'] == 'live':
+  if case['kind'] in ('live', 'plugto'):
     return json.dumps(case, sort_keys=True)
   return ' '.join(o['toks']) + '|' + case['kind'] + str(case.get('wmode')) if (o['toks'] or case['kind'] == 'plug') else None
 
@@ -676,6 +735,9 @@ def gen_cases(rng, tier):
     cases.append({'kind': 'live', 'nmeas': r.choice([2, 3]), 'ops': [[r.randrange(3), r.choice([1, 5, 7])] for _ in range(r.choice([2, 3, 4]))],
                   'rseed': r.getrandbits(32), 'pct': r.choice([0, 2, 3, 3]), 'horizon': r.choice([200, 500]),
                   'switch': r.choice([0.2, 0.5])})
+  for i in range(12 if quick else 300):
+    r = rng.derive('pt%d' % i)
+    cases.append({'kind': 'plugto', 'prompts': r.choice([1, 2]), 'rseed': r.getrandbits(32)})
   for i in range(20 if quick else 400):
     r = rng.derive('p%d' % i)
     cases.append({'kind': 'plug', 'prompts': r.choice([1, 2, 3]), 'rseed': r.getrandbits(32),
